@@ -166,20 +166,22 @@ def _refactor_variants(prop, repo):
 
 def _mass_variants(prop, repo):
     """Mechanical, behaviour-preserving rewrites of the *whole* package (tools/mass_rewrite.py): every `if/else` inverted,
-    every comparison flipped, trailing `if` blocks turned into guard clauses, every local variable renamed, positional
-    arguments of same-module calls turned into keywords.  No check may depend on such spellings."""
+    every comparison flipped, trailing `if` blocks turned into guard clauses (and the reverse), every local variable renamed,
+    positional arguments of same-module calls turned into keywords, De Morgan in tests, comprehensions as loops, conditional
+    expressions as statements, chained comparisons split, commutative operands swapped, call arguments hoisted into
+    temporaries -- one at a time and in three combinations.  No check may depend on such spellings."""
     out = []
     try:
         sys.path.insert(0, os.path.join(HERE, "tools"))
         import mass_rewrite
     except Exception:
         return out
-    for t in mass_rewrite.TRANSFORMS:
+    for names in [(t,) for t in mass_rewrite.TRANSFORMS] + list(getattr(mass_rewrite, "COMBOS", ())):
         try:
-            ov = mass_rewrite.rewrite_tree(repo, [t])
+            ov = mass_rewrite.rewrite_tree(repo, list(names))
         except Exception:
             ov = None
-        out.append(dict(prop=prop, id="mass/" + t, overrides=ov, expect="HOLDS"))
+        out.append(dict(prop=prop, id="mass/" + "+".join(names), overrides=ov, expect="HOLDS"))
     return out
 
 
